@@ -11,6 +11,15 @@ BASELINE = ("cd /repo && /venv/bin/python -m pytest -ra -q -p no:cacheprovider -
 
 # pid -> (category, text, design_ref, level_note, technique)
 CLAIMED = {
+ "C17": ("exploration",
+         "spec/Times.tla (integer microseconds): TLC checks the order law on a window of instants around a second boundary, the zone "
+         "law for forward/backward transitions, Parse(Format(d)) = d over boundary durations, and emits vectors: the real timestamp "
+         "class must render/compare as computed (also after arithmetic on an already rendered value), the real duration class "
+         "round-trips and parses the spec's text; real zones: probes around every recent DST transition (own TZif reader) are "
+         "rendered with the generic zone name and parsed back, TLC (TimesTrace) decides same-instant vs must-reject.",
+         "5/C17", "sampling of binary floating point (ties and values within 2 us of a comparison boundary excluded); tz database and strftime trusted; "
+         "no DST-specific abbreviations on this image",
+         "TLA+ laws checked by TLC on an integer model; TLC-emitted vectors replayed; zone probes of the real code validated by TLC"),
  "C18": ("model_checking",
          "spec/History.tla states the delivery rule (start file, replayable records, due = timestamp <= replay clock + look-ahead, a "
          "load returns the next undelivered due records up to its limit); MC_History explores every bounded scenario under every "
